@@ -24,7 +24,7 @@ ASSUMPTIONS = ["values of the NUC/NIC/NAC/SIL tables are not compared with DO-26
                "totality, arity and monotonicity are monitored", "heading/track label polarity of target_angle is not asserted: "
                "only that it is a function of ME bit 37 taking two distinct values", "TC28 reserved emergency states 6-7 and "
                "subtype 0 with non-zero state bits are not judged for is_emergency"]
-REQUIRED = ["tc28", "emergency_true", "emergency_false", "v2_alt", "v2_baro", "v2_hdg_neg", "v2_hdg_none", "v2_modes_off", "v2_modes_on",
+REQUIRED = ["tc28", "tc28_every_squawk_x_state", "emergency_true", "emergency_false", "v2_alt", "v2_baro", "v2_hdg_neg", "v2_hdg_none", "v2_modes_off", "v2_modes_on",
             "v1_alt", "v1_angle", "v1_modes", "v1_tcas", "tc31", "tc19q", "lookups", "mismatch_v1_on_v2", "mismatch_v2_on_v1"]
 
 V2_ONLY = ["selected_altitude", "baro_pressure_setting", "selected_heading", "autopilot", "vnav_mode", "altitude_hold_mode",
@@ -72,6 +72,29 @@ def m_tc28(ctx, case):
                         ctx.violation("is_emergency-wrong", frame=hx, observed=r[1:], note="bool expected")
                 ctx.nontrivial(("28", hx))
     ctx.hit("tc28")
+
+
+def m_tc28grid(ctx, case):
+    """every Mode A code field x every emergency state: the predicate reads the state field and nothing else (a "helpful"
+    predicate that also looks at the squawk - 7500 / 7600 / 7700 - is wrong on 6 of 8192 code values only)"""
+    from pyModeS import adsb
+    rng = ctx.rng
+    for sq in range(case["lo"], case["hi"]):
+        for state in range(8):
+            me = radsb.tc28(1, state, sq, rng.fill(32))
+            hx = frame(ctx, me)
+            r = call(adsb.is_emergency, hx)
+            if state <= 5:
+                exp = state != 0
+                chk(ctx, "is_emergency", hx, r, r[0] == "ok" and r[1] is exp, exp)
+            else:
+                ctx.ev()
+                if r[0] != "ok" or not isinstance(r[1], bool):
+                    ctx.violation("is_emergency-wrong", frame=hx, observed=r[1:], note="bool expected")
+            r = call(adsb.emergency_state, hx)
+            chk(ctx, "emergency_state", hx, r, r[1:] == (state,), state)
+        ctx.nontrivial(("28g", sq))
+    ctx.hit("tc28_every_squawk_x_state")
 
 
 def v2_expect(f):
@@ -381,7 +404,7 @@ def m_lookups(ctx, case):
     ctx.hit("lookups")
 
 
-MONITORS = {"tc28": m_tc28, "v2": m_v2, "v1": m_v1, "tc31": m_tc31, "tc19q": m_tc19q, "lookups": m_lookups}
+MONITORS = {"tc28": m_tc28, "tc28grid": m_tc28grid, "v2": m_v2, "v1": m_v1, "tc31": m_tc31, "tc19q": m_tc19q, "lookups": m_lookups}
 
 
 def cases(ctx):
@@ -391,6 +414,11 @@ def cases(ctx):
     for rep in range(reps * 2):
         if ctx.mine(i):
             yield "tc28", {"reps": 6}
+        i += 1
+
+    for lo in range(0, 8192, 256):
+        if ctx.mine(i):
+            yield "tc28grid", {"lo": lo, "hi": lo + 256}
         i += 1
 
     def chunks(lst, n=128):
